@@ -860,10 +860,14 @@ def ev_soak(case, rec):
     rec.sample({'function': case['soak'], 'calls': 2 * len(args) + 64, 'distinct_results': distinct})
 
 
+from gpmc import interp as _ip
+
+
 SUBCHECKS = [
     Sub('soak', gen_soak, ev_soak, chunk=1, floor=10, timeout=1800, poison=False),
     Sub('seq', gen_seq, ev_seq, chunk=1, floor=40, timeout=3600, poison=False),
     Sub('sched', gen_sched, ev_sched, chunk=1, floor=100, timeout=3600, poison=False),
+    Sub('interpreter', *_ip.make('C09', 'purity'), chunk=1, floor=5, poison=False),
 ]
 
 
